@@ -363,6 +363,12 @@ def run(ctx):
                 n = strip(sc.rvalue(st["rv"]))
 
                 def col(x):
+                    # a column parsed through a small helper (`parse_decimal(fields[6])`) is read with the helper in place
+                    try:
+                        from ..cfgq import inline_all
+                        x = inline_all(prog, strip(x))
+                    except Exception:
+                        pass
                     ii = [strip(y[2][1]) for y in walk(strip(x)) if y[0] == "call" and short_callee(y[1]) == "index" and len(y[2]) == 2]
                     pp = [1 for y in walk(strip(x)) if y[0] == "call" and short_callee(y[1]) == "parse"]
                     return int(ii[0][1]) if len(ii) == 1 and ii[0][0] == "k" and pp else None
